@@ -30,8 +30,8 @@ class C19(Check):
         "naming the missing full name. Non-trivial = graph with >=3 types or a type used from >=2 places. Distinct by digest."
     )
     assumptions = ["graphs are acyclic (recursive types are not placed in separate files)", "either all types live in namespaces or all in the null namespace (a null-namespace type cannot be referred to from a namespaced file)"]
-    required_labels = ["types>=3", "shared-type", "namespaces>=2", "relative-ref", "qualified-ref", "missing-file", "ordered", "depth>=2"]
-    quick = (500, 1)
+    required_labels = ["types>=3", "shared-type", "namespaces>=2", "relative-ref", "qualified-ref", "missing-file", "ordered", "depth>=2", "explicit-repo"]
+    quick = (1500, 1)
     thorough = (3000, 16)
 
     def selftest(self):
@@ -164,6 +164,13 @@ class C19(Check):
             if got != want:
                 i = next((j for j in range(min(len(got), len(want))) if got[j] != want[j]), min(len(got), len(want)))
                 raise Violation("load_schema-differs-from-inlined", f"at char {i}: loaded ...{got[max(0,i-40):i+60]!r} inlined ...{want[max(0,i-40):i+60]!r}; files={files!r:.500}")
+            # the same through an explicit repository object (schema_path is then the full name, dots included)
+            from fastavro.repository import FlatDictRepository
+            labels.add("explicit-repo")
+            loaded_r = guard("load_schema-with-repo", load_schema, top, repo=FlatDictRepository(td))
+            got_r = guard("canonical-form", to_parsing_canonical_form, loaded_r)
+            if got_r != want:
+                raise Violation("load_schema-with-repo-differs", f"load_schema({top!r}, repo=...) gives {got_r!r:.300}, inlined {want!r:.300}")
             # ordered loading, dependencies first
             order = self._dep_order(top, table)
             labels.add("ordered")
